@@ -51,7 +51,7 @@ def default_driver():
     e = os.environ.get('LBZDRV')
     if e:
         return e
-    for p in (PRIVATE_DRV, FINAL_DRV):
+    for p in (PRIVATE_DRV + '2', PRIVATE_DRV, FINAL_DRV):
         if os.path.exists(p):
             return os.path.normpath(p)
     return os.path.normpath(FINAL_DRV)
